@@ -68,6 +68,13 @@ class Gen:
             incs.append({"href": "inc%d%s" % (i, r.choice(FORMS + [".nml", ".nml"])), "morphs": [self.obj(MIDS) for _ in range(r.randint(0, 3))],
                          "bios": [self.obj(BIDS) for _ in range(r.randint(0, 2))], "missing": r.random() < 0.04})
         for f in incs:
+            x = r.random()
+            if x < 0.3:   # the same file, spelt differently / reached through a symbolic link to a directory and ..
+                # (through the link only for XML files read directly by the function: the include loop of _read_neuroml2 and the HDF5
+                #  parser take os.path.abspath of such a name, which collapses lnk/.. textually - see design_notes/C06.md, symlinks)
+                f["prefix"] = r.choice(["./", ".//"] + ([] if f["href"].endswith((".h5", ".hdf5")) else ["lnk/../", "lnk/../", "./lnk/..//"]))
+            if r.random() < 0.03 and not f["href"].endswith((".h5", ".hdf5")):
+                f["pad"] = 70000
             if f["href"].endswith((".h5", ".hdf5")) and r.random() < 0.5:
                 f["nested"] = [{"href": f["href"].split(".")[0] + "_n.nml", "morphs": [self.obj(MIDS) for _ in range(r.randint(1, 2))],
                                 "bios": [self.obj(BIDS) for _ in range(r.randint(0, 2))]}]
@@ -227,6 +234,14 @@ def fixed_cases():
     out.append({"cells": [ref("cells", "c0", 350, "m0", "b0"), ref("cells2", "k0", 351, "m0", None)], "morphs": [O("m0", 352, [1, 2])],
                 "bios": [O("b0", 353, [3])], "incs": [{"href": "inc0.nml", "morphs": [O("m1", 354, [])], "bios": [], "missing": False}],
                 "build": "parsed"})
+    # the included file is large (definitions start beyond byte 70 000); is reached through a symlinked directory and ..;
+    # is spelt with ./ and a doubled slash
+    for k, extra in enumerate(({"pad": 70000}, {"prefix": "lnk/../"}, {"prefix": ".//"}, {"prefix": "lnk/../", "pad": 70000})):
+        out.append({"cells": [ref("cells", "c0", 400 + k, "m0", "b0"), ref("cells2", "k0", 410 + k, "m0", None)], "morphs": [], "bios": [],
+                    "incs": [dict({"href": "inc0.nml", "morphs": [O("m0", 420 + k, [1])], "bios": [O("b0", 430 + k, [2])], "missing": False}, **extra)]})
+    out.append({"cells": [ref("cells", "c0", 440, "m0", "b0")], "morphs": [], "bios": [],
+                "incs": [{"href": "inc0.nml.h5", "prefix": ".//", "morphs": [], "bios": [O("b0", 441, [2])], "missing": False,
+                          "nested": [{"href": "inc0_n.nml", "morphs": [O("m0", 442, [3])], "bios": []}]}]})
     # the definitions live in an included file, one case per file form the loader accepts
     for k, form in enumerate(FORMS):
         out.append({"cells": [{"list": "cells", "id": "c0", "rest": 50 + k, "m": {"attr": "m0", "emb": None}, "b": {"attr": "b0", "emb": None}},
@@ -454,7 +469,7 @@ def run(ck):
     for i, c in enumerate(cases):
         # also through NeuroMLXMLParser.parse (file -> include resolution -> fix), for the file forms an <include> may have there
         # (at most 8 referring slots there: see the known finding C17:copy-drags-document-copy - the cost doubles per slot)
-        c["via_parser"] = (i < ck.n(80, 400) and all(f["href"].endswith(PARSER_FORMS) for f in c["incs"]) and
+        c["via_parser"] = (i < ck.n(80, 400) and all(f["href"].endswith(PARSER_FORMS) and "lnk" not in f.get("prefix", "") for f in c["incs"]) and
                            sum(1 for x in c["cells"] for k in ("m", "b") if x[k]["attr"] is not None and x[k]["emb"] is None) <= 8)
     results = []
     for i in range(0, len(cases), 500):
@@ -465,6 +480,17 @@ def run(ck):
             ck.oblige("static:Cell2CaPools.__init__ forwards every parameter to the same-named Cell parameter",
                       pr["parse_ok"] and not pr["mismatches"], json.dumps(pr)[:800], kind="instance")
             ck.extra["ctor_forwarding_mismatches"] = pr["mismatches"]
+    # ---- the interpreter's configuration is not input: the first deterministic documents again under `python -O` and with
+    #      another hash seed from another working directory
+    canon = lambda r: {m: {k: r[m].get(k) for k in ("outcome", "input_after", "output", "out_lists", "pattern")} for m in ("true", "false")}
+    for label, kw in (("python-O", {"pyflags": ["-O"]}), ("PYTHONHASHSEED=3,cwd=/", {"extra_env": {"PYTHONHASHSEED": "3"}, "cwd": "/"})):
+        alt = ck.impl("c17_impl.py", {"cases": cases[:12]}, timeout=900, **kw)["results"]
+        for case, a, b in zip(cases[:12], results[:12], alt):
+            ck.tally("other-interpreter-configuration")
+            if canon(a) != canon(b):
+                ck.witness("C17:interpreter-configuration:%s" % label.split(",")[0],
+                           "under %s the call gives another result than under the default interpreter configuration" % label,
+                           input={"case": case}, expected=canon(a), observed=canon(b))
     # ---- histories: several calls in ONE process, the included files rewritten between the calls; every call must behave as
     #      if it were the only one (the model's `load` is a function of the files at call time)
     hists = fixed_histories() + [g.history() for _ in range(ck.n(12, 120))]
